@@ -3,6 +3,7 @@ CONSTANTS
   BugD6 = FALSE
   BugD7 = FALSE
   Depth = 6
+  Wide = FALSE
 CHECK_DEADLOCK FALSE
 INVARIANTS
   C08_Hull
